@@ -43,10 +43,9 @@ def run(tier):
     rnd = os.path.join(d, "rnd_cases.ndjson")
     vf.run_harness(binpath, ["pnm", "gen", "--seed", vf.seed(), "--tier", tier], stdout_path=rnd)
     vf.exec_and_validate(chk, binpath, "pnm", "TV_Pnm", rnd, jvms=10, what="call")
-    if tier == "thorough":
-        # the never-panics clauses also in a plain release build (wrapping arithmetic)
-        plain = vf.build_harness("plain")
-        vf.exec_and_validate(chk, plain, "pnm", "TV_Pnm", rnd, jvms=10, what="call (plain release build)")
+    # also in a plain release build (no debug assertions, wrapping arithmetic): what a user ships
+    plain = vf.build_harness("plain")
+    vf.exec_and_validate(chk, plain, "pnm", "TV_Pnm", rnd, jvms=10, what="call (plain release build)")
     chk.cov["distinct_nontrivial"] = chk.cov["traces_validated_against_impl"]
     chk.cov["trusted_base"] = ["TLC + CommunityModules (Json, IOUtils)", "harness/src/pnm.rs recorder"]
     chk.assumptions = ["maxval 255 only for exact decoding; other maxvals, P4, VT as whitespace and '#' adjacent "
